@@ -110,8 +110,11 @@ func parseSym(sym string) symInfo {
 		si.kind, si.state, si.idv = "session", "new", "bad"
 	case "neg":
 		si.kind, si.state, si.idv, si.comp, si.enc = "session", "negotiating", p[1], p[2], p[3]
-	case "auth":
+	case "auth", "authas":
 		si.kind, si.state, si.idv, si.cred = "session", "authenticating", p[1], p[2]
+		if p[0] == "authas" {
+			si.state, si.idv = p[1], "id"
+		}
 		si.from, si.fromFull = "alice@verif.local", "alice@verif.local/home"
 		switch p[2] {
 		case "guest-uuid":
